@@ -648,7 +648,48 @@ def rev_check(ax, case, rec):
     rec.close("orientation", max(0.0, float(-vol.min())) / V, 0.0, {"negative cells": int((vol < 0).sum()), "cells": int(len(vol))})
 
 
+def mtol_strategy(d, tier):
+    return st.fixed_dictionaries({"n": st.lists(st.integers(2, 4), min_size=2, max_size=2), "m": st.integers(2, 5), "seed": st.integers(0, 2**16),
+                                  "noise": st.sampled_from([0.0, 0.05, 0.2]), "via": st.sampled_from(["mesh", "sweep", "container"])})
+
+
+def mtol_check(d, case, rec):
+    """merging with a rounding tolerance: two patches on a lattice of spacing m * 10^-d share an edge; the points of the second
+    carry noise below a quarter of the tolerance 10^-d. For every `decimals` (negative, zero, positive) the shared points
+    are merged, nothing else is, and no corner moves by more than half a unit of the last kept digit."""
+    fem = import_felupe()
+    unit = 10.0 ** (-d)
+    sp = case["m"] * unit
+    nx, ny = case["n"]
+    a = fem.Rectangle(a=(0.0, 0.0), b=(nx * sp, ny * sp), n=(nx + 1, ny + 1))
+    b = fem.Rectangle(a=(nx * sp, 0.0), b=(2 * nx * sp, ny * sp), n=(nx + 1, ny + 1))
+    rng = np.random.default_rng(case["seed"])
+    Pb = np.array(b.points) + case["noise"] * unit * rng.uniform(-1, 1, b.points.shape)
+    b = fem.Mesh(Pb, np.array(b.cells), b.cell_type)
+    lattice_points = (2 * nx + 1) * (ny + 1)
+    if case["via"] == "container":
+        m = fem.MeshContainer([a, b], merge=True, decimals=d).stack()
+    else:
+        cat = fem.mesh.concatenate([a, b])
+        m = cat.merge_duplicate_points(decimals=d) if case["via"] == "mesh" else cat.sweep(decimals=d)
+    P, C = np.array(m.points, float), np.array(m.cells)
+    rec.nontrivial = case["noise"] > 0
+    rec.require("merged-point-count", len(P) == lattice_points, {"points": len(P), "lattice": lattice_points, "decimals": d, "via": case["via"]})
+    ref = np.vstack([np.array(a.points)[np.array(a.cells)], Pb[np.array(b.cells)]])
+    if C.shape[0] == ref.shape[0]:
+        rec.close("corners-not-moved-beyond-the-tolerance", float(np.abs(P[C] - ref).max()) / unit, 0.5 * (1 + 1e-9))
+    if len(P) > 1:
+        from scipy.spatial import cKDTree
+
+        dist = cKDTree(P).query(P, k=2)[0][:, 1].min()
+        rec.close("no-two-points-closer-than-the-tolerance", max(0.0, 1.0 - dist / unit), 0.0, {"min distance / 10^-d": dist / unit})
+    vol = volumes(P, C, m.cell_type)
+    rec.close("covered-area", abs(vol.sum() - 2 * nx * ny * sp * sp) / (2 * nx * ny * sp * sp), 2e-1 / case["m"])
+    rec.close("orientation", max(0.0, float(-vol.min())), 0.0)
+
+
 FAMILIES = [
+    Family("merge-tolerance", [-1, 0, 1, 2, 4], mtol_check, strategy=mtol_strategy, n={"quick": 8, "thorough": 200}, chunk=8),
     Family("revolve-side", REV_AXIS, rev_check, strategy=rev_strategy, n={"quick": 6, "thorough": 200}, chunk=6),
     Family("generators", GENS, gen_check, strategy=gen_strategy, n={"quick": 30, "thorough": 600}, chunk=100),
     Family("programs", ["line", "quad", "hexahedron"], prog_check, strategy=prog_strategy, n={"quick": 150, "thorough": 6000}, chunk=25),
